@@ -276,6 +276,8 @@ class Sym:
         return False
 
     def stmt(self, s):
+        if '__returned__' in self.env:
+            self.bad = True                          # a statement reached although some path before it has returned
         if isinstance(s, ast.Pass):
             return
         if isinstance(s, ast.Expr) and isinstance(s.value, ast.Constant):
